@@ -153,7 +153,7 @@ PLANS["C05"]["rule"] += "; plus every accepted emplacement of MCEmplace (constru
 # ---- impl -> spec: seeded drivers + TLC trace validation (spec/TraceFlat.tla) -------------------------
 VEC_T = ["V_u16_u64", "S_u64", "V_u8_u8", "V_u8_u16", "V_u8_u32", "V_u32_u8", "V_u64_u32", "V_u128_u8", "V_bool_u8", "V_ss3_u16", "V_i32_u16", "V_lei32_leu16", "V_u16_beu32", "V_ss5_u16", "V_se1_u8",
          "S_u8", "S_u16", "S_u32", "S_leu16", "US1", "US2", "US3", "US6", "US7", "US8", "US9", "US10"]
-FLEX_T = ["X_u8_u64", "X_u8_u8", "X_u32_u8", "X_bool_u16", "X_vu8_u8", "X_vi32_u16", "X_s8_u16", "X_vu8le_le", "X_x_u8", "X_us2_u16", "X_ue1_u8", "US4", "UE8"]
+FLEX_T = ["X_u8_u64", "X_u8_u8", "X_u32_u8", "X_bool_u16", "X_vu8_u8", "X_vi32_u16", "X_s8_u16", "X_vu8le_le", "X_x_u8", "X_us2_u16", "X_ue1_u8", "X_unit_u16", "US4", "UE8"]
 # (UE14 is left to the exhaustive model: it exhibits known finding #18, and a trace is judged only up to its first rejected event)
 COMP_T = ["US1", "US2", "US3", "US4", "US5", "US6", "US7", "US8", "US9", "US10", "US11", "UE1", "UE2", "UE3", "UE4", "UE5", "UE6", "UE7", "UE8", "UE9", "UE10", "UE11", "UE12", "UE13", "UE15", "UE16", "PE1", "GU1", "GU2", "GX1", "GX2", "GP1", "GP2", "US12", "US13", "US14"]
 SIZED_T = ["bool", "arr_bool3", "SS1", "SS2", "SS3", "SS4", "SS5", "SS6", "SE1", "SE2", "SE3", "SE4", "SE5", "le_u16", "be_u32", "GS1", "GS2", "GE1", "GE2", "arr_unit_2", "arr_ss3_2", "arr_se1_2", "SS8"]
